@@ -112,6 +112,7 @@ def run(ck):
         am, ph = it.get_attr(s, "rbm_am", None), it.get_attr(s, "rbm_ph", None)
         e = VConst(expand)
         return {
+            "__state__": s,
             "pi": call(it, s, "pi", v, vp, expand=e),
             "rho": call(it, s, "rho", v, vp, expand=e),
             "gamma+": call(it, am, "gamma", v, vp, eta=VConst(1), expand=e),
@@ -150,6 +151,23 @@ def run(ck):
                     if w[-1] == "P":
                         got = got[:-1]
                     ck.check(got == want, "C02.R4", "%s/%s" % (nm, cname), _fsite(prog, nm), "result axes %s, expected %s(+params)" % (got, want))
+                # values: in every call form  Gamma^(+-)(v, vp) = 1/2 [A(v) +- A(vp)],  A(x) = x.b + sum_j softplus((W x + c)_j)
+                it_ = p.interp
+                for nm, net, sg in (("gamma+", "rbm_am", 1), ("gamma-", "rbm_ph", -1)):
+                    got_t = p.value[nm].term
+                    R = role_terms(it_, it_.get_attr(p.value["__state__"], net, None)) if "__state__" in p.value else None
+                    if got_t is None or R is None:
+                        continue
+
+                    def A(x, R=R):
+                        return T.app("matmul", x, R["b"]) + sp_sum(aff(x, R["W"], R["c"]))
+
+                    want_t = (A(T.sym("v")) + sg * A(T.sym("vp"))) * T.Fraction(1, 2)
+                    d = lin_diff(got_t, want_t)
+                    if got_t == (sg * A(T.sym("v")) + A(T.sym("vp"))) * T.Fraction(1, 2) and sg == -1:
+                        d = ("coeff", "A(v), A(vp)", "(-1/2, +1/2)", "(+1/2, -1/2)")
+                    ck.check(diff_verdict(d), "C02.R4", "%s/%s:value = 1/2 [A(v) %s A(vp)]" % (nm, cname, "+" if sg > 0 else "-"), _fsite(prog, "gamma+"),
+                             "%s in the %s call form: %s" % (nm, cname, diff_msg(d)), got=got_t)
     # ------------------------------------------------------------------ R3 diagonal == probabilities
     with ck.guard("C02.R3", "diagonal"):
         def diag(it, s):
